@@ -235,3 +235,7 @@ for n in ["send_retry_first_single_att", "send_retry_first_frag_att", "send_retr
 
 # ---- receiver set (C06): NOT CLAIMED.  kani/src/h_set.rs::rxset_two_members passes natively, but under Kani the
 # symbolic execution does not get past hashbrown's group-probing loop (SIMD emulation) in 40 minutes.
+# recv_plan_sym_60 (all packet boundaries of a 60-byte message symbolic) exists in h_recv.rs but runs out of memory even at 45 GB
+# (symex 91 s, solver 486 s): the receive side is decided on the concrete plans recv_short_* + the window M-queries.
+
+H("c16_drop_undecoded_fd0", ["C16", "C03", "C11"], sym="payload bytes symbolic; one unconverted channel attachment whose descriptor number is 0", bounds="unwind 19")
